@@ -100,7 +100,18 @@ class Deployment:
             return
         dep = self
 
-        def run_worker(worker, pool, prior_samples_file, task_args=(), n_batches=None, n_prior_samples=None, samples_idx=None, rng=None):
+        import inspect
+
+        sig_rw = inspect.signature(orig)
+
+        def run_worker(*a_, **k_):
+            try:
+                b = sig_rw.bind(*a_, **k_)
+                b.apply_defaults()
+                worker, pool, prior_samples_file, n_batches, n_prior_samples, samples_idx = (
+                    b.arguments.get(x) for x in ("worker", "pool", "prior_samples_file", "n_batches", "n_prior_samples", "samples_idx"))
+            except Exception:  # noqa: BLE001
+                return orig(*a_, **k_)
             try:
                 import h5py
 
@@ -114,7 +125,7 @@ class Deployment:
                                              "samples_idx": None if samples_idx is None else np.array(samples_idx), "pool": id(pool), "pool_maps_before": len(getattr(pool, "map_calls", []))})
             except Exception:  # noqa: BLE001
                 pass
-            return orig(worker, pool, prior_samples_file, task_args=task_args, n_batches=n_batches, n_prior_samples=n_prior_samples, samples_idx=samples_idx, rng=rng)
+            return orig(*a_, **k_)
 
         run_worker._verif_wrapped = True
         mh.run_worker = run_worker
@@ -129,9 +140,17 @@ class Deployment:
             return
         dep = self
 
-        def batch_tasks(n_tasks, n_batches, arr=None, args=None, start_idx=0):
-            out = orig(n_tasks, n_batches, arr=arr, args=args, start_idx=start_idx)
+        import inspect
+
+        sig_bt = inspect.signature(orig)
+
+        def batch_tasks(*a_, **k_):
+            out = orig(*a_, **k_)
             try:
+                b = sig_bt.bind(*a_, **k_)
+                b.apply_defaults()
+                n_tasks, n_batches, arr, args, start_idx = (b.arguments.get(x) for x in ("n_tasks", "n_batches", "arr", "args", "start_idx"))
+                start_idx = start_idx or 0
                 dep.batch_tasks_calls.append(
                     {"op": dep.current_op, "n_tasks": int(n_tasks), "n_batches": int(n_batches), "arr": None if arr is None else np.array(arr), "start_idx": int(start_idx),
                      "n_args": 0 if args is None else len(list(args)), "tasks": [(t[0] if isinstance(t[0], tuple) else np.array(t[0]), t[1], len(t)) for t in out]}
@@ -154,13 +173,20 @@ class Deployment:
             return
         dep = self
 
-        def marginal_ln_likelihood_inmem(joker_helper, prior_samples_batch):
+        import inspect
+
+        sig_inmem = inspect.signature(orig)
+
+        def marginal_ln_likelihood_inmem(*args, **kwargs):
+            # observation only: whatever the signature becomes, the call itself is passed through untouched
             try:
-                dep.inmem_batches.append((dep.current_op, np.array(prior_samples_batch, dtype=np.float64)))
-                dep.log.add("inmem-eval", "marginal_ln_likelihood_inmem", {"n": len(prior_samples_batch)})
+                b = sig_inmem.bind(*args, **kwargs).arguments
+                batch = b.get("prior_samples_batch", args[1] if len(args) > 1 else None)
+                dep.inmem_batches.append((dep.current_op, np.array(batch, dtype=np.float64)))
+                dep.log.add("inmem-eval", "marginal_ln_likelihood_inmem", {"n": len(batch)})
             except Exception:  # noqa: BLE001
                 pass
-            return orig(joker_helper, prior_samples_batch)
+            return orig(*args, **kwargs)
 
         marginal_ln_likelihood_inmem._verif_wrapped = True
         marginal_ln_likelihood_inmem.__wrapped__ = orig
